@@ -76,26 +76,26 @@ PROPS = {
                      'dynamic part: one case = a history of create/create_empty/insert_or_assign/erase/find/begin/lower_bound/iterator_next/iterator_destroy/size calls on dynamic_pgm_index_<int32|int64|uint32> judged against std::map, iterators held across updates and destroyed later, the handle destroyed and re-created inside a history, a second (bystander) container alive all along and compared at the end; static part also: destroy + create a different index at the same address (or keep both alive) and repeat the last query first; non-trivial = distinct trace hashes of histories with >= 2 updates',
                 assumptions=COMMON_ASSUME + ['dynamic_pgm_index_uint64 is declared in cpgm.h but not defined in cpgm.cpp, so it cannot be linked and is not exercised', 'c-interface/cpgm.cpp is compiled from the working tree into the engine']),
     'C05': dict(level='exploration', budget={'quick': Q, 'thorough': T}, groups=B(),
-                rule='one case = (DynamicPGMIndex<K,V,PGMType> configuration, base, buffer_level, index_level, bulk-load, history of 1..400 (quick) / ..5000 (thorough) operations over a small key domain with unique values, invalid operations injected at random points, simulated machine/team/schedule for indexed levels >= 2^15 entries)' + '; after every operation find/count/lower_bound are compared with std::map, with sweeps over the key domain; non-trivial and distinct = distinct trace hashes of histories with >= 2 updates and (>= 2 non-empty levels or an erase-then-reinsert)',
+                rule='one case = (DynamicPGMIndex<K,V,PGMType> configuration, base, buffer_level, index_level, bulk-load, history of 1..400 (quick) / ..5000 (thorough) operations over a small key domain with unique values (incl. copies of advanced iterators, values passed by reference into the container, a second container on the same thread, bulk-loads through vector/deque iterators and raw pointers to std::pair or plain structs), invalid operations injected at random points, simulated machine/team/schedule for indexed levels >= 2^15 entries)' + '; after every operation find/count/lower_bound are compared with std::map, with sweeps over the key domain; non-trivial and distinct = distinct trace hashes of histories with >= 2 updates and (>= 2 non-empty levels or an erase-then-reinsert)',
                 assumptions=COMMON_ASSUME),
     'C06': dict(level='exploration', budget={'quick': Q, 'thorough': T}, groups=B(),
-                rule='one case = (DynamicPGMIndex<K,V,PGMType> configuration, base, buffer_level, index_level, bulk-load, history of 1..400 (quick) / ..5000 (thorough) operations over a small key domain with unique values, invalid operations injected at random points, simulated machine/team/schedule for indexed levels >= 2^15 entries)' + '; traversal from begin() and from lower_bound results (bounded by the number of live keys), range(lo,hi) (exact length and content), size() and empty() are compared with std::map; non-trivial as C05',
+                rule='one case = (DynamicPGMIndex<K,V,PGMType> configuration, base, buffer_level, index_level, bulk-load, history of 1..400 (quick) / ..5000 (thorough) operations over a small key domain with unique values (incl. copies of advanced iterators, values passed by reference into the container, a second container on the same thread, bulk-loads through vector/deque iterators and raw pointers to std::pair or plain structs), invalid operations injected at random points, simulated machine/team/schedule for indexed levels >= 2^15 entries)' + '; traversal from begin() and from lower_bound results (bounded by the number of live keys), range(lo,hi) (exact length and content), size() and empty() are compared with std::map; non-trivial as C05',
                 assumptions=COMMON_ASSUME),
     'C15': dict(level='exploration', budget={'quick': Q, 'thorough': T}, groups=B(),
-                rule='one case = (DynamicPGMIndex<K,V,PGMType> configuration, base, buffer_level, index_level, bulk-load, history of 1..400 (quick) / ..5000 (thorough) operations over a small key domain with unique values, invalid operations injected at random points, simulated machine/team/schedule for indexed levels >= 2^15 entries)' + '; after every insert_or_assign/erase the private layout is read through hook H3 and checked: levels strictly sorted, capacities from an independent formula, no data beyond used levels, every non-empty indexed level owns an index bit-identical to a freshly built one (property-level equivalent when chunked), emptied levels own no index; scale slots: base 2 walked through 2^18-1 resident entries (> 16 non-empty levels), and a level of capacity 2^24 bulk-loaded to capacity - need - delta (delta -2..+1, need from a sizes-only reference model of the cascade rule) with the sizes judged after every one of 0.26-1.1 M inserts; non-trivial as C05',
+                rule='one case = (DynamicPGMIndex<K,V,PGMType> configuration, base, buffer_level, index_level, bulk-load, history of 1..400 (quick) / ..5000 (thorough) operations over a small key domain with unique values (incl. copies of advanced iterators, values passed by reference into the container, a second container on the same thread, bulk-loads through vector/deque iterators and raw pointers to std::pair or plain structs), invalid operations injected at random points, simulated machine/team/schedule for indexed levels >= 2^15 entries)' + '; after every insert_or_assign/erase the private layout is read through hook H3 and checked: levels strictly sorted, capacities from an independent formula, no data beyond used levels, every non-empty indexed level owns an index bit-identical to a freshly built one (property-level equivalent when chunked), emptied levels own no index; scale slots: base 2 walked through 2^18-1 resident entries (> 16 non-empty levels), and a level of capacity 2^24 bulk-loaded to capacity - need - delta (delta -2..+1, need from a sizes-only reference model of the cascade rule) with the sizes judged after every one of 0.26-1.1 M inserts; non-trivial as C05',
                 assumptions=COMMON_ASSUME + ['hook H3 (friend accessor) only reads']),
     'C19': dict(level='exploration', budget={'quick': Q, 'thorough': T},
                 groups=[{'engine': 'buildsim', 'flavour': 'asan', 'weight': 6}, {'engine': 'buildsim', 'flavour': 'plain', 'weight': 4},
                         {'engine': 'histsim', 'flavour': 'asan', 'weight': 4}, {'engine': 'histsim', 'flavour': 'plain', 'weight': 2}],
                 rule='one case = (class and configuration, input, a lifetime history: derive Y from X by copy-construct / copy-assign / move-construct / move-assign (those the type provides), then in seeded order destroy X (heap object, storage really released), churn the allocator, update X (dynamic), query Y); '
-                     'oracle: every answer of Y equals the answer X gave before; ASan: no use-after-free; plain flavour: glibc M_PERTURB overwrites every freed block; also assignment onto an already built object, and scale slots of 0.5-1.5 M keys (> 33,000 segments, where the succinct structures change representation). non-trivial and distinct = distinct (trace hash x step order)',
+                     'oracle: every answer of Y equals the answer X gave before; ASan: no use-after-free; plain flavour: glibc M_PERTURB overwrites every freed block; also assignment onto an already built object, second derivations (copy or move of the derived object), swap there and back, the object living in a reallocating std::vector, and scale slots of 0.5-1.5 M keys (> 33,000 segments, where the succinct structures change representation). non-trivial and distinct = distinct (trace hash x step order)',
                 assumptions=COMMON_ASSUME + ['plain flavour relies on mallopt(M_PERTURB) to poison freed storage, ASan flavour on the quarantine']),
     'C20': dict(level='fault_enumeration', budget={'quick': Q, 'thorough': T},
                 groups=[{'engine': 'buildsim', 'flavour': 'plain', 'weight': 5}, {'engine': 'buildsim', 'flavour': 'asan', 'weight': 3},
                         {'engine': 'histsim', 'flavour': 'plain', 'weight': 5}, {'engine': 'histsim', 'flavour': 'asan', 'weight': 3}],
                 rule='the invalid argument is the injected fault and its position is what is enumerated. static classes, C wrapper: valid data followed by 1..3 copies of the reserved value (the only place a sorted array can hold it) -> std::invalid_argument / NULL; '
                      'builder: non-increasing x after 1,2,3.. points, negative epsilon; multidimensional: one coordinate of one point at width >= FieldBits, or a negative coordinate in tuples of int8/16/32/64 elements; DynamicPGMIndex: an out-of-order pair at EVERY position of bulk-loads up to 64 pairs (exhaustive per case) and sampled positions of larger ones, '
-                     'every base 0..255, the reserved mapped value and lo > hi at random points of histories, with the container state (through hook H3) compared before/after a rejected insert. non-trivial and distinct = distinct (class x input size x fault position) cases',
+                     'the reserved mapped value at every position of a bulk-load through each iterator kind and through the C create function, every base 0..255, the reserved mapped value and lo > hi at random points of histories, with the container state (through hook H3) compared before/after a rejected insert. non-trivial and distinct = distinct (class x input size x fault position) cases',
                 assumptions=COMMON_ASSUME + ['exhaustive only per small case (all positions of a bulk-load <= 64 pairs, all 256 bases); the set of cases itself is sampled']),
     'C17': dict(level='exploration', budget={'quick': Q, 'thorough': T},
                 groups=[{'engine': 'buildsim', 'flavour': 'asan', 'weight': 5, 'profile': 'boundary'}, {'engine': 'buildsim', 'flavour': 'asan', 'weight': 4},
@@ -116,6 +116,6 @@ PROPS = {
                 groups=[{'engine': 'readsim', 'flavour': 'tsan', 'weight': 9}, {'engine': 'readsim', 'flavour': 'plain', 'weight': 4}, {'engine': 'readsim', 'flavour': 'asan', 'weight': 3}],
                 rule='one case = (class and configuration of the shared object: PGMIndex, Compressed, Bucketing, EliasFano, Mapped (reopened file), Multidimensional, Dynamic (updated single-threaded beforehand); 2..16 reader tasks with seeded query scripts; preemption probability; schedule seed). '
                      'readers are real threads of which exactly one runs, handed over by the seeded baton scheduler at operation, iterator-step and in-query (hook H2) yield points; the scheduler is invisible to ThreadSanitizer, so two conflicting accesses by different readers are reported whenever both occur in the run. '
-                     'oracles: zero TSan reports; every call returns what it returns when run alone (warm runs: a solo pass on the shared object before the readers; cold runs, 60 %: a solo pass on an identically constructed twin, so that the concurrent readers are the first callers of any query operation on the shared object) and a second solo pass afterwards agrees. non-trivial and distinct = distinct schedules (decision hashes) in which >= 2 readers were each preempted mid-script',
+                     'oracles: zero TSan reports; every call returns what it returns when run alone (readers also copy a shared, already advanced iterator and walk their copies; warm runs: a solo pass on the shared object before the readers; cold runs, 60 %: a solo pass on an identically constructed twin, so that the concurrent readers are the first callers of any query operation on the shared object) and a second solo pass afterwards agrees. non-trivial and distinct = distinct schedules (decision hashes) in which >= 2 readers were each preempted mid-script',
                 assumptions=COMMON_ASSUME + ['no instruction-level interleaving: races are found by happens-before analysis over serial executions, their effects (e.g. a lost update) are not explored']),
 }
